@@ -55,7 +55,9 @@ class Precondition:
 
         else:
             numeric_preconditions = self._simplify_numeric_preconditions(
-                numeric_expressions, decimal_digits
+                numeric_expressions,
+                decimal_digits,
+                eliminate_using_equalities=self.binary_operator == "and",
             )
 
         discrete_preconditions.sort()
@@ -218,11 +220,14 @@ class Precondition:
     def _simplify_numeric_preconditions(
         numeric_preconditions: List[NumericalExpressionTree],
         decimal_digits: int = DEFAULT_DECIMAL_DIGITS,
+        eliminate_using_equalities: bool = True,
     ) -> List[str]:
         """Simplify the numeric preconditions by eliminating redundant conditions as well as removing redundant preconditions.
 
         :param numeric_preconditions: the numeric preconditions to simplify.
         :param decimal_digits: the number of decimal digits to keep.
+        :param eliminate_using_equalities: whether the equality conditions may be used to eliminate variables in the
+            other conditions - sound only when the conditions are the members of a conjunction.
         :return: the simplified numeric preconditions.
         """
         # start by searching for the equality conditions that can be used to eliminate some variables in the other conditions
@@ -230,7 +235,9 @@ class Precondition:
             precondition.__copy__() for precondition in numeric_preconditions
         ]
         equality_conditions = [
-            condition for condition in new_expressions if condition.root.value == "="
+            condition
+            for condition in new_expressions
+            if condition.root.value == "=" and eliminate_using_equalities
         ]
 
         assumptions = []
